@@ -6,9 +6,9 @@ BASE_NOTE = ('Trusted base: CPython, z3 5.1.0, the SX models of bytes/str method
              'the evidence file.')
 
 claim('C16', 'bounded symbolic execution of the real split_lines (SX engine, z3 QF_BV), all paths, solver-decided',
-      'For every byte string of 1..8 (quick) / 1..13 (thorough) fully symbolic bytes and each of the 10 newline '
-      'sequences, every feasible path of the real split_lines (both modes) is executed symbolically and the four '
-      'clauses of the property are discharged by z3 (unsat of path condition and negated property). Long inputs '
+      'For every byte string of 1..8 (quick) / 1..13 (thorough) fully symbolic bytes and each newline sequence, every feasible path of the real split_lines (both modes) is executed symbolically and the four '
+      'clauses of the property are discharged by z3 (unsat of path condition and negated property); the newline set is '
+      'every distinct encoding of LF / CRLF in any text codec of the platform (incl. EBCDIC, LF = "%"). Long inputs '
       '(up to several KiB, crossing 1024-byte boundaries) are covered by a fully symbolic window slid over every offset '
       'of a concrete context.',
       BASE_NOTE, 'DESIGN.md section 4, C16')
@@ -27,7 +27,7 @@ claim('C17', 'symbolic execution of the real _read_until on an interval-abstract
       'length, start offset and delimiter position (all z3 Ints) for searches needing at most 4 (quick) / 9 (thorough) '
       'reads: returned chunks tile [pos0, d+1) exactly, the stream is left at d+1, eof flag correct. The whole reader '
       'is additionally run at byte level with forced block sizes and header paddings and symbolic diff content, and on '
-      'streams already positioned at an offset > 0.',
+      'streams already positioned at an offset > 0, and on streams offering peek() with explored short / long results.',
       BASE_NOTE + ' Searches needing more reads than the bound are cut and counted in the evidence. The block-size knob '
       '(parameter or constant) is found by reflection on the current source; without one only the natural block size runs.',
       'DESIGN.md section 4, C17; 2.5')
@@ -94,7 +94,8 @@ claim('C08', 'bounded symbolic execution of the real reader and DOM loader on co
       'completes or raises DiffXParseError with 0 <= linenum <= lines(input) and a message agreeing with its '
       'attributes; DiffX.from_stream on such inputs (and on headers whose option names are attribute names of the '
       'object-model classes, by reflection) raises only BaseDiffXError subclasses and always closes the stream. Valid '
-      'multi-section files (UTF-8, UTF-16 with CRLF) are corrupted by a symbolic window of 1..2 bytes at every offset.',
+      'multi-section files (UTF-8, UTF-16 with CRLF) are corrupted by a symbolic window of 1..2 bytes at every offset. '
+      'Resource-shaped inputs: JSON nested up to 200000 levels, option values of 4300+ digits.',
       BASE_NOTE + ' json.loads on symbolic text: CPython\'s pure-Python decoder under instrumentation (exact); a catalogue '
       'fallback would be flagged in the evidence.', 'DESIGN.md section 4, C08; II.5c')
 
@@ -104,7 +105,8 @@ claim('C07', 'bounded symbolic execution of the real reader on every truncation 
       'path (container headers carry options, so that a cut header may still look like a header); z3 decides that the '
       'records of the truncated file are a prefix of the intact ones (ids, options, content), '
       'followed by end or DiffXParseError. Lengths exceeding the data present, negative, non-numeric and int()-exotic '
-      'tokens likewise. One known finding (short read accepted) is listed in known_findings.json.',
+      'tokens likewise; multi-line text in UTF-8/16/32 with a symbolic character after a newline is cut at every byte '
+      '(also inside a character). One known finding (short read accepted) is listed in known_findings.json.',
       BASE_NOTE, 'DESIGN.md section 4, C07; section 5 (D4)')
 
 claim('C12', 'bounded symbolic execution of the real reader on base files and on the same files with unknown options whose key and value bytes are symbolic, inserted at every position; z3 decides record equality modulo the added keys',
@@ -129,7 +131,8 @@ claim('C13', 'bounded symbolic execution of the real generate_stats: diffs assem
       'or detected line_endings, diff encoding unset/utf-8/utf-16-le/utf-16, with or without pre-existing stats: counts '
       'equal the ground truth, custom keys kept, second call changes nothing; binary/absent/unparsable diffs untouched. '
       'Aggregation: per-file figures are unconstrained z3 integers in trees up to 2x2 (quick) / 3x3 (thorough); sums and '
-      'counts are shown for all integers, custom keys preserved, idempotent.',
+      'counts are shown for all integers, custom keys preserved, idempotent. Regeneration after the diff was replaced '
+      '(other newline convention / encoding) gives the figures of the new diff.',
       BASE_NOTE, 'DESIGN.md section 4, C13')
 
 claim('C19', 'bounded symbolic execution of the real descriptors and __eq__/__ne__ with symbolic candidate values and independently symbolic tree fields; z3 decides stored<=>valid and ==<=>field-wise equality',
@@ -138,7 +141,7 @@ claim('C19', 'bounded symbolic execution of the real descriptors and __eq__/__ne
       '=> declared type and allowed choice, readable back; raised => whole-tree snapshot unchanged; valid values never '
       'rejected. Two trees (0..1 changes x 0..1 files quick / 0..2 thorough) with independently present/symbolic fields: '
       'A==B <=> same shape and field-wise equal, != its negation, equal trees serialise identically; any single-field '
-      'perturbation with a symbolic different value makes trees unequal.',
+      'perturbation (new / changed / removed option, changed content) makes trees unequal.',
       BASE_NOTE, 'DESIGN.md section 4, C19')
 
 claim('C18', 'bounded symbolic execution over call histories: menu operations with symbolic values on several live trees through the real object model, reader and writer; aliasing by object-graph identity, value leaks decided by z3',
@@ -173,7 +176,8 @@ claim('C15', 'bounded symbolic execution with a *symbolic codec-name spelling*: 
       'guess_line_endings must return the BOM-free LF/CRLF of that codec, and writer+reader with encoding=<spelling> must '
       'give the same text and content bytes as under the canonical spelling (symbolic text for the UTF/latin-1/ascii '
       'families, concrete text through the real codec for all others). Every alias the platform knows for the BOM-relevant '
-      'codecs is additionally run with per-character symbolic case and symbolic separators, whatever its length.',
+      'codecs is additionally run with per-character symbolic case and symbolic separators, whatever its length. The '
+      'round trip is absolute (text read == text written, multi-line texts), not only relative between spellings.',
       BASE_NOTE + ' Stateful / non-text codecs are outside the property.', 'DESIGN.md section 4, C15')
 
 claim('C20', 'bounded symbolic execution of the DiffX lexer through the real Pygments RegexLexer driver (loaded under the same instrumentation; rule regexes executed by the exact backtracking regex model), z3 decides losslessness',
@@ -181,5 +185,7 @@ claim('C20', 'bounded symbolic execution of the DiffX lexer through the real Pyg
       '0..7 (quick) / 0..9 (thorough) code points, on every rule-header literal and two-section prefix followed by '
       '0..4 / 0..6 symbolic code points, and on UTF-8 files produced by the real writer with a symbolic content section '
       'without "#.": every path terminates, the concatenated token values equal the input, and for writer files no '
-      'Error token occurs and the Name.Tag header tokens are the file\'s headers in order.',
-      BASE_NOTE + ' JsonLexer / DiffLexer are identity stubs in symbolic runs (real in replays).', 'DESIGN.md section 4, C20')
+      'Error token occurs and the Name.Tag header tokens are the file\'s headers in order; a realistic diff with '
+      'symbolic characters ending one of its lines likewise.',
+      BASE_NOTE + ' JsonLexer is an identity stub, DiffLexer a line-based stub (Error tokens for a chunk without final newline) '
+      'in symbolic runs; both real in replays.', 'DESIGN.md section 4, C20')
